@@ -40,7 +40,10 @@ Definition check (c : case) : nat :=
         && list_eqb (list_eqb Z.eqb) obs_cd (cdist1d (metric_fn m) xs xs)
         && layout_ok (Z.of_nat (length xs)) obs obs_cd
     | KCdist m xs ys obs => list_eqb (list_eqb Z.eqb) obs (cdist1d (metric_fn m) xs ys)
-    | KProp cl ml obs => option_eqb (list_eqb zz_eqb) obs (propagate cl ml)
+    | KProp cl ml obs => match propagate cl ml with
+                         | Some r => option_eqb (list_eqb zz_eqb) obs r
+                         | None => false
+                         end
     | KL2 ok => ok
     end in
   if ok then 0%nat else 1%nat.
